@@ -312,6 +312,19 @@ class _NP:
     def cbrt(self, x):
         return _ew(_sfun(sp.cbrt), x)
 
+    def square(self, x, dtype=None, **_k):
+        return _ew(lambda v: v * v, x)
+
+    def radians(self, x):
+        return _ew(lambda v: v * Sym(sp.pi) / 180, x)
+
+    deg2rad = radians
+
+    def degrees(self, x):
+        return _ew(lambda v: v * 180 / Sym(sp.pi), x)
+
+    rad2deg = degrees
+
     def abs(self, x):
         return _ew(lambda v: abs(v) if not isinstance(v, bool) else int(v), x)
 
